@@ -7,7 +7,7 @@ from .vals import (VInt, VBool, VReal, VNone, NONE, VObj, VTup, VOpt, VRef, VFun
                    HList, HDict, HRec, sort_of, usort, to_z3, from_z3, fresh_name, type_of_val, parse_type,
                    T_INT, T_BOOL, T_STR, T_ANY)
 from .state import (State, Unsupported, ContractError, fresh_val, fresh_hlist, fresh_hdict, empty_hlist,
-                    empty_hdict)
+                    empty_hdict, quick_unsat)
 from .engine import EXC_PARENT
 from .exprs import GHOST
 
@@ -260,6 +260,9 @@ class CallMixin:
             if saved_old is not None:
                 s.snaps['old'] = saved_old
             s.fid = caller
+            if exc is not None and quick_unsat([z for z, q in s.pc if q]):
+                self.stats['pruned'] += 1
+                continue
             if exc is None:
                 out += k(s, res)
             else:
@@ -562,9 +565,7 @@ class CallMixin:
 
     def lit_of(self, v):
         if isinstance(v, VObj) and v.sort == 'Str':
-            for s, z in self.strlits.items():
-                if z.eq(v.z):
-                    return s
+            return self._lit_by_id.get(v.z.get_id())
         return None
 
     def bi_getattr(self, args, kws, st, node, k):
